@@ -213,6 +213,32 @@ func nilTest(cond ssa.Value) (ssa.Value, int, bool) {
 			}
 			return x, nilSucc, true
 		}
+		if x, when, ok := guardResultNilTarget(calleeOf(call), 0); ok {
+			nilSucc := 1
+			if !when {
+				nilSucc = 0
+			}
+			if neg {
+				nilSucc = 1 - nilSucc
+			}
+			return x, nilSucc, true
+		}
+		return nil, 0, false
+	}
+	if ex, isEx := cond.(*ssa.Extract); isEx {
+		// the "ok" result of a helper that hands out something only if a wire pointer is non-nil
+		if call, isCall := ex.Tuple.(*ssa.Call); isCall {
+			if x, when, ok := guardResultNilTarget(calleeOf(call), ex.Index); ok {
+				nilSucc := 1
+				if !when {
+					nilSucc = 0
+				}
+				if neg {
+					nilSucc = 1 - nilSucc
+				}
+				return x, nilSucc, true
+			}
+		}
 		return nil, 0, false
 	}
 	if ld, isLd := cond.(*ssa.UnOp); isLd && ld.Op == token.MUL && curProg != nil {
@@ -378,6 +404,73 @@ func predicateNilTarget(call *ssa.Call) (ssa.Value, bool) {
 		return nil, false
 	}
 	return target, true
+}
+
+// guardResultNilTarget: h is a small loop-free function of package trie whose k-th result is a
+// boolean constant at every return, and every return with the value "when" lies behind the non-nil
+// side of a nil test (direct, cached or through an emptiness predicate) of one wire pointer X:
+// result == when establishes X != nil ("func (st) newQuery(key) (*session, bool)" that returns
+// (nil, false) for an empty trie). The other value establishes nothing.
+var guardResultDepth int
+
+func guardResultNilTarget(h *ssa.Function, k int) (ssa.Value, bool, bool) {
+	if h == nil || curProg == nil || !trieScope(h) || len(h.Blocks) < 2 || len(h.Blocks) > 8 || hasLoop(h) || guardResultDepth > 2 {
+		return nil, false, false
+	}
+	rs := h.Signature.Results()
+	if k >= rs.Len() || !isBoolType(rs.At(k).Type()) {
+		return nil, false, false
+	}
+	guardResultDepth++
+	defer func() { guardResultDepth-- }()
+	rets := returnsOf(h)
+	behindNonNil := func(b *ssa.BasicBlock) ssa.Value {
+		for d := b; d != nil && d.Idom() != nil; d = d.Idom() {
+			D := d.Idom()
+			iff, ok := lastInstr(D).(*ssa.If)
+			if !ok {
+				continue
+			}
+			x, nilSucc, ok := nilTest(iff.Cond)
+			if !ok {
+				continue
+			}
+			nn := D.Succs[1-nilSucc]
+			if len(nn.Preds) == 1 && nn != D.Succs[nilSucc] && nn.Dominates(b) {
+				return x
+			}
+		}
+		return nil
+	}
+	for _, when := range []bool{true, false} {
+		var target ssa.Value
+		ok, n := true, 0
+		for _, ret := range rets {
+			if k >= len(ret.Results) {
+				ok = false
+				break
+			}
+			cv, isC := constBool(ret.Results[k])
+			if !isC {
+				ok = false
+				break
+			}
+			if cv != when {
+				continue
+			}
+			n++
+			t := behindNonNil(ret.Block())
+			if t == nil || wirePathOf(t) == "" || (target != nil && wirePathOf(target) != wirePathOf(t)) {
+				ok = false
+				break
+			}
+			target = t
+		}
+		if ok && n > 0 && n < len(rets) && target != nil {
+			return target, when, true
+		}
+	}
+	return nil, false, false
 }
 
 // freeVarCell: the local cell of the enclosing function that a closure's free variable refers to
